@@ -9,6 +9,8 @@ path <pos> <len>        -> # path direct|copy|err   (model only, not an observat
 split <maxpfn>          reset the split layout
 sfile <start> <end> <maxbit> <bitmap hex> <descoff>    files in the order they are passed
 tprobe <pfn>            -> > tprobe pd=<fidx>:<pos> | pd=-
+zx <0|1>                file.zero_excluded of the open set
+zprobe <pfn>            -> > zprobe pd=<fidx>:<pos> | zero | nodata
 ```
 The file content is read by the driver and handed to the model as a function.
 -/
@@ -30,6 +32,7 @@ structure St where
   opened : Option (Map × List Int) := none
   files : List SFile := []
   maxPfn : Nat := 0
+  zeroExcl : Bool := false
 
 def showStatus : Kdf.Model.Flat.Status → String
   | .ok => "ok" | .corrupt => "corrupt" | .notimpl => "notimpl" | .system => "system" | .eof => "eof"
@@ -83,7 +86,7 @@ partial def loop (h : IO.FS.Stream) (s : St) : IO Unit := do
       | .ok (false, _) => IO.println "# path copy"
       | .error _ => IO.println "# path err"
     loop h s
-  | ["split", maxpfn] => loop h { s with files := [], maxPfn := maxpfn.toNat! }
+  | ["split", maxpfn] => loop h { s with files := [], maxPfn := maxpfn.toNat!, zeroExcl := false }
   | ["sfile", sp, ep, maxbit, hex, descoff] =>
     let bm := unhex hex.toList
     let e := min ep.toNat! maxbit.toNat!
@@ -93,6 +96,13 @@ partial def loop (h : IO.FS.Stream) (s : St) : IO Unit := do
     match pdLookup (sortFiles s.files) s.maxPfn pfn.toNat! with
     | some (fi, pos) => IO.println s!"> tprobe pd={fi}:{pos}"
     | none => IO.println "> tprobe pd=-"
+    loop h s
+  | ["zx", b] => loop h { s with zeroExcl := b != "0" }
+  | ["zprobe", pfn] =>
+    match readPageSrc (sortFiles s.files) s.maxPfn s.zeroExcl pfn.toNat! with
+    | .desc fi pos => IO.println s!"> zprobe pd={fi}:{pos}"
+    | .zero => IO.println "> zprobe zero"
+    | .nodata => IO.println "> zprobe nodata"
     loop h s
   | _ => loop h s      -- lines meant for the harness only
 
